@@ -620,6 +620,13 @@ func (m *Manager) Close() error {
 		return nil // Already closed
 	}
 
+	// Wait for a running flush (it rotates and closes log files) and exclude
+	// readers and writers while the tables are closed
+	m.flushMu.Lock()
+	defer m.flushMu.Unlock()
+	m.mu.Lock()
+	defer m.mu.Unlock()
+
 	// Close the WAL using atomic access
 	currentWAL := m.getWAL()
 	if currentWAL != nil {
